@@ -1,6 +1,798 @@
-//! C19 — stub (not yet implemented; not registered in MANIFEST.json).
-use crate::fw::{CheckDef, Ctx};
+//! C19 — formatted postings are laid out in aligned columns.
+//!
+//! Every case is one complete ledger text. It is pushed through the real `okane::format::format`
+//! (= `okane_core::format::FormatOptions::format`: parse -> `DisplayContext::as_display`), and the
+//! *output text* is judged by `RefLayout`, a reference that knows the input structure (which account,
+//! which clear mark, which number literal, which commodity, which tail) and re-derives the columns
+//! from the property statement with its OWN display-width function (ASCII = 1, the wide alphabet
+//! below = 2). The reference never looks at okane's arithmetic.
+//!
+//! Families (all exhaustive products, deterministic order; A = accounts of every display width
+//! 1..=60 (thorough ..=70): ASCII, ASCII with an inner space, wide only, ASCII+wide; M = {none,*,!};
+//! N = every (digit count 1..=14, scale 0..=4, sign, grouping) literal + {0, 0.5, -0.05, 0.00}
+//! (thorough: 20 digits, scale 6)):
+//!  1. amount, no tail    A x M x N x 8 amount kinds (plain USD/$/円/bare, `(N C * 2)`, `(2 * N C)`)
+//!  2. amount with tail   A x M x N' x 8 kinds x 5 lots x 3 costs x {no assertion, assertion}
+//!                        (N' = 8 number shapes in quick, N in thorough)
+//!  3. assertion-only     A x M x N x commodity {none,$,USD,円}  (+ expression assertions, `=` column not judged)
+//!  4. bare postings      A x M
+//!  5. ledger structure   all sequences of <= 3 entries over 10 entry kinds x input separators
+//!                        {none, 1 blank line, 3 blank lines} x {LF, CRLF}
+//!
+//! Clauses of the statement -> oracle:
+//!  (a) posting lines and metadata lines start with exactly four spaces          -> `indent/..`
+//!  (b) >= 2 spaces between the account and what follows it                      -> `account-gap/..`
+//!  (c) if 4 + mark + account + 2 + number <= 52, the number ends in column 52   -> `amount-column/..`
+//!  (d) assertion-only: `=` in column 54 + width(" commodity") if two spaces fit -> `assertion-column/..`
+//!  (e) exactly one blank line between entries                                   -> `entry-separation/..`
+//!  (f) (borrowed from C05(2), DESIGN 2.4) the formatted text re-parses to the same posting
+//!      skeleton (account, mark, has-amount, has-assertion)                      -> `reparse/..`
 
-pub const DEF: CheckDef = CheckDef { id: "C19", run, technique: "stub", rule: "stub", assumptions: &[], shards: 0, hang_s: 20, single_worker: false };
+use okane_core::parse::{parse_ledger, ParseOptions};
+use okane_core::syntax::{self, plain};
 
-fn run(_ctx: &mut Ctx) {}
+use crate::fw::{CheckDef, Ctx, Outcome};
+
+pub const DEF: CheckDef = CheckDef {
+    id: "C19",
+    run,
+    technique: "bounded-exhaustive product of account widths (ASCII / wide / mixed, with and without clear mark) x number shapes (digit count, scale, sign, grouping) x amount kinds x lot/cost/assertion tails, plus all entry sequences of length <= 3; every input is formatted by the real okane formatter and the output columns are judged by an independent layout reference",
+    rule: "case = one ledger text; states = distinct inputs executed; transitions = real format() executions judged by RefLayout; a case is non-trivial (MUST) when the statement fixes the layout: indentation, account gap, column 52 of the numeric part when it fits, `=` column of assertion-only postings with a plain amount, blank lines between entries",
+    assumptions: &[
+        "display width is judged with the harness' own function on the alphabet ASCII + {資産銀行カードあいＡ１円}: ASCII = 1 column, the others = 2 (no ambiguous-width characters are generated)",
+        "for parenthesised amounts the 'numeric part' is the first commodity-bearing number (anchor: fmt_with_alignment); assertion-only postings whose assertion is an expression are DON'T-CARE for the `=` column",
+        "'short enough' means 4 + mark + account + 2 + (text up to the end of the number) <= 52; longer lines only owe the two-space gap",
+        "blank lines before the first and after the last entry are not judged",
+    ],
+    shards: 64,
+    hang_s: 20,
+    single_worker: false,
+};
+
+// ------------------------------------------------------------------------------------------------
+// own display width
+
+const WIDE: [char; 12] = ['資', '産', '銀', '行', 'カ', 'ー', 'ド', 'あ', 'い', 'Ａ', '１', '円'];
+
+fn cw(c: char) -> Option<usize> {
+    if (' '..='~').contains(&c) {
+        Some(1)
+    } else if WIDE.contains(&c) {
+        Some(2)
+    } else {
+        None
+    }
+}
+
+/// Display width of `s`; None if it contains a character outside the alphabet (tab, control, ...).
+fn width(s: &str) -> Option<usize> {
+    let mut w = 0;
+    for c in s.chars() {
+        w += cw(c)?;
+    }
+    Some(w)
+}
+
+fn shape_of(s: &str) -> &'static str {
+    let a = s.chars().any(|c| c.is_ascii());
+    let w = s.chars().any(|c| !c.is_ascii());
+    match (a, w) {
+        (true, false) => "ascii",
+        (false, true) => "wide",
+        _ => "mixed",
+    }
+}
+
+// ------------------------------------------------------------------------------------------------
+// case model
+
+#[derive(Clone, Copy, PartialEq, Debug)]
+enum Kind {
+    Plain,
+    /// `(N C * 2)`
+    ParenFirst,
+    /// `(2 * N C)`
+    ParenSecond,
+}
+impl Kind {
+    fn name(self) -> &'static str {
+        match self {
+            Kind::Plain => "plain",
+            Kind::ParenFirst => "paren-first",
+            Kind::ParenSecond => "paren-second",
+        }
+    }
+}
+
+#[derive(Clone, Debug)]
+struct Amt {
+    kind: Kind,
+    num: String,
+    com: &'static str,
+}
+impl Amt {
+    fn text(&self) -> String {
+        let a = if self.com.is_empty() { self.num.clone() } else { format!("{} {}", self.num, self.com) };
+        match self.kind {
+            Kind::Plain => a,
+            Kind::ParenFirst => format!("({} * 2)", a),
+            Kind::ParenSecond => format!("(2 * {})", a),
+        }
+    }
+    fn com_class(&self) -> &'static str {
+        if self.com.is_empty() {
+            "bare"
+        } else if self.com.is_ascii() {
+            "ascii"
+        } else {
+            "wide"
+        }
+    }
+}
+
+#[derive(Clone, Debug)]
+struct Post {
+    /// "", "*" or "!"
+    mark: &'static str,
+    account: String,
+    amount: Option<Amt>,
+    /// literal text following the amount, e.g. " {1.5 USD}"
+    lot: &'static str,
+    /// e.g. " @ 1.1 EUR"
+    cost: &'static str,
+    balance: Option<Amt>,
+    meta: &'static [&'static str],
+}
+impl Post {
+    fn new(mark: &'static str, account: String) -> Post {
+        Post { mark, account, amount: None, lot: "", cost: "", balance: None, meta: &[] }
+    }
+    /// input rendering: deliberately NOT in canonical layout (1-space indent, 2-space gap)
+    fn render(&self, out: &mut String) {
+        out.push(' ');
+        if !self.mark.is_empty() {
+            out.push_str(self.mark);
+            out.push(' ');
+        }
+        out.push_str(&self.account);
+        if let Some(a) = &self.amount {
+            out.push_str("  ");
+            out.push_str(&a.text());
+            out.push_str(self.lot);
+            out.push_str(self.cost);
+            if let Some(b) = &self.balance {
+                out.push_str(" = ");
+                out.push_str(&b.text());
+            }
+        } else if let Some(b) = &self.balance {
+            out.push_str("  = ");
+            out.push_str(&b.text());
+        }
+        out.push('\n');
+        for m in self.meta {
+            out.push_str("  ; ");
+            out.push_str(m);
+            out.push('\n');
+        }
+    }
+}
+
+#[derive(Clone, Debug)]
+enum Entry {
+    Txn { head: &'static str, head_meta: &'static [&'static str], posts: Vec<Post> },
+    /// `text` is the complete input text, `first` the expected beginning of the first output line
+    Other { kind: &'static str, text: &'static str, first: &'static str },
+}
+impl Entry {
+    fn kind(&self) -> &'static str {
+        match self {
+            Entry::Txn { .. } => "txn",
+            Entry::Other { kind, .. } => kind,
+        }
+    }
+    fn first(&self) -> &str {
+        match self {
+            Entry::Txn { head, .. } => &head[..10],
+            Entry::Other { first, .. } => first,
+        }
+    }
+    fn render(&self, out: &mut String) {
+        match self {
+            Entry::Txn { head, head_meta, posts } => {
+                out.push_str(head);
+                out.push('\n');
+                for m in *head_meta {
+                    out.push_str(" ; ");
+                    out.push_str(m);
+                    out.push('\n');
+                }
+                for p in posts {
+                    p.render(out);
+                }
+            }
+            Entry::Other { text, .. } => out.push_str(text),
+        }
+    }
+}
+
+fn render(entries: &[Entry], seps: &[&str]) -> String {
+    let mut s = String::new();
+    for (i, e) in entries.iter().enumerate() {
+        if i > 0 {
+            s.push_str(seps[i - 1]);
+        }
+        e.render(&mut s);
+    }
+    s
+}
+
+// ------------------------------------------------------------------------------------------------
+// RefLayout
+
+enum J {
+    Pass(String),
+    DontCare(String),
+    Viol(String, String),
+}
+
+fn numeric_run(s: &str) -> usize {
+    s.bytes().take_while(|b| b.is_ascii_digit() || *b == b'.' || *b == b',' || *b == b'-').count()
+}
+
+/// Judge one posting line of the output against the posting that was written in the input.
+fn judge_post(p: &Post, line: &str) -> J {
+    let shape = shape_of(&p.account);
+    let markc = if p.mark.is_empty() { "nomark" } else { "mark" };
+    let indent = line.bytes().take_while(|b| *b == b' ').count();
+    if indent != 4 {
+        return J::Viol(format!("indent/posting/{}-spaces", indent.min(9)), format!("posting line {:?} is indented by {} spaces, not 4", line, indent));
+    }
+    let rest = &line[4..];
+    // clear mark, then the account, verbatim
+    let mut pos = 0usize;
+    if !p.mark.is_empty() {
+        if !rest.starts_with(p.mark) {
+            return J::Viol("posting/mark-missing".into(), format!("posting line {:?} does not start with the clear mark {:?}", line, p.mark));
+        }
+        pos += p.mark.len();
+        pos += rest[pos..].bytes().take_while(|b| *b == b' ').count();
+    }
+    if !rest[pos..].starts_with(p.account.as_str()) {
+        return J::Viol("posting/account-missing".into(), format!("posting line {:?} does not show the account {:?} after the indentation", line, p.account));
+    }
+    let acc_end = pos + p.account.len();
+    let left_w = match width(&rest[..acc_end]) {
+        Some(w) => 4 + w,
+        None => return J::Viol("output/char-outside-alphabet".into(), format!("posting line {:?}", line)),
+    };
+    let after = &rest[acc_end..];
+    if p.amount.is_none() && p.balance.is_none() {
+        return if after.trim_end().is_empty() { J::Pass(format!("bare-posting/{}/{}", shape, markc)) } else { J::DontCare("bare-posting/with-tail".into()) };
+    }
+    let gap = after.bytes().take_while(|b| *b == b' ').count();
+    let t = &after[gap..];
+    if width(t).is_none() {
+        return J::Viol("output/char-outside-alphabet".into(), format!("posting line {:?}", line));
+    }
+    match (&p.amount, &p.balance) {
+        (Some(a), _) => {
+            // locate the numeric part
+            let (nstart, nend) = match a.kind {
+                Kind::Plain => (0, numeric_run(t)),
+                Kind::ParenFirst => {
+                    if !t.starts_with('(') {
+                        return J::DontCare("amount/expression-shape-not-recognised".into());
+                    }
+                    (1, 1 + numeric_run(&t[1..]))
+                }
+                Kind::ParenSecond => {
+                    if !t.starts_with('(') {
+                        return J::DontCare("amount/expression-shape-not-recognised".into());
+                    }
+                    let n1 = numeric_run(&t[1..]);
+                    let p2 = 1 + n1;
+                    if n1 == 0 || !t[p2..].starts_with(" * ") {
+                        return J::DontCare("amount/expression-shape-not-recognised".into());
+                    }
+                    (p2 + 3, p2 + 3 + numeric_run(&t[p2 + 3..]))
+                }
+            };
+            if nend == nstart {
+                return J::Viol(format!("amount/no-numeric-part/{}", a.kind.name()), format!("posting line {:?}: no number where the amount {:?} should be", line, a.text()));
+            }
+            let prefix_w = nend; // ASCII only up to here: '(' digits operators spaces
+            let fits = left_w + 2 + prefix_w <= 52;
+            if gap < 2 {
+                return J::Viol(
+                    format!("account-gap/{}-space/amount/{}", gap, if fits { "fits" } else { "overflow" }),
+                    format!("posting line {:?}: only {} space(s) between the account and the amount", line, gap),
+                );
+            }
+            let col_end = left_w + gap + prefix_w;
+            let tail = if p.lot.is_empty() && p.cost.is_empty() && p.balance.is_none() { "" } else { "+tail" };
+            if fits {
+                if col_end != 52 {
+                    return J::Viol(
+                        format!("amount-column/{}/{}/{}", a.kind.name(), shape, markc),
+                        format!("posting line {:?}: the numeric part ends in display column {}, not 52 (account+mark occupy columns 5..{}, {} columns up to the end of the number)", line, col_end, left_w, prefix_w),
+                    );
+                }
+                let tight = if left_w + 2 + prefix_w == 52 { "tight" } else { "roomy" };
+                J::Pass(format!("aligned52/{}/{}/{}{}", tight, a.kind.name(), shape, tail))
+            } else {
+                J::Pass(format!("overflow/{}/gap{}/{}{}", a.kind.name(), if gap == 2 { "=2" } else { ">2" }, shape, tail))
+            }
+        }
+        (None, Some(b)) => {
+            let exp = 54 + if b.com.is_empty() { 0 } else { 1 + width(b.com).expect("harness bug: commodity outside alphabet") };
+            let room = left_w + 2 < exp;
+            if gap < 2 {
+                // what does the parser make of this line?
+                return J::Viol(
+                    format!("account-gap/{}-space/assertion-only/{}", gap, if room && b.kind == Kind::Plain { "room" } else { "no-room" }),
+                    format!("posting line {:?}: only {} space(s) between the account (display columns 5..{}) and `=`", line, gap, left_w),
+                );
+            }
+            if !t.starts_with('=') {
+                return J::Viol("assertion/no-equal-sign".into(), format!("posting line {:?}: `=` expected after the account", line));
+            }
+            if b.kind != Kind::Plain {
+                return J::DontCare(format!("assertion-only/expression/{}", b.kind.name()));
+            }
+            let eq_col = left_w + gap + 1;
+            if room {
+                if eq_col != exp {
+                    return J::Viol(
+                        format!("assertion-column/com-{}/{}/{}", b.com_class(), shape, markc),
+                        format!("posting line {:?}: `=` is in display column {}, but after an amount in {:?} it would be in column {}", line, eq_col, b.com, exp),
+                    );
+                }
+                let tight = if left_w + 3 == exp { "tight" } else { "roomy" };
+                J::Pass(format!("eq-aligned/{}/com-{}/{}", tight, b.com_class(), shape))
+            } else {
+                J::Pass(format!("eq-overflow/gap{}/com-{}/{}", if gap == 2 { "=2" } else { ">2" }, b.com_class(), shape))
+            }
+        }
+        (None, None) => unreachable!(),
+    }
+}
+
+fn clear_of(m: &str) -> syntax::ClearState {
+    match m {
+        "*" => syntax::ClearState::Cleared,
+        "!" => syntax::ClearState::Pending,
+        _ => syntax::ClearState::Uncleared,
+    }
+}
+
+/// Clause (f): the formatted text must read back to the same posting skeleton.
+fn judge_reparse(entries: &[Entry], out: &str) -> Option<(String, String)> {
+    let parsed: Result<Vec<plain::LedgerEntry<'_>>, String> = parse_ledger::<plain::Ident>(&ParseOptions::default(), out).map(|r| r.map(|(_, e)| e).map_err(|e| e.to_string())).collect();
+    let parsed = match parsed {
+        Ok(p) => p,
+        Err(e) => return Some(("reparse/rejected".into(), format!("the formatted text does not parse: {}", e.lines().next().unwrap_or("")))),
+    };
+    if parsed.len() != entries.len() {
+        return Some(("reparse/entry-count".into(), format!("{} entries were formatted, {} are read back", entries.len(), parsed.len())));
+    }
+    for (e, g) in entries.iter().zip(parsed.iter()) {
+        match (e, g) {
+            (Entry::Txn { posts, .. }, syntax::LedgerEntry::Txn(t)) => {
+                if t.posts.len() != posts.len() {
+                    return Some(("reparse/posting-count".into(), format!("{} postings were formatted, {} are read back", posts.len(), t.posts.len())));
+                }
+                for (p, gp) in posts.iter().zip(t.posts.iter()) {
+                    if gp.account.as_ref() != p.account.as_str() {
+                        return Some(("reparse/account-changed".into(), format!("account {:?} reads back as {:?}", p.account, gp.account)));
+                    }
+                    if gp.clear_state != clear_of(p.mark) {
+                        return Some(("reparse/clear-mark-changed".into(), format!("posting of {:?}: mark {:?} reads back as {:?}", p.account, p.mark, gp.clear_state)));
+                    }
+                    if gp.amount.is_some() != p.amount.is_some() || gp.balance.is_some() != p.balance.is_some() {
+                        return Some(("reparse/amount-or-assertion-lost".into(), format!("posting of {:?}: amount/assertion presence changed on re-reading", p.account)));
+                    }
+                }
+            }
+            (Entry::Other { kind, .. }, g) => {
+                let ok = matches!(
+                    (*kind, g),
+                    ("comment", syntax::LedgerEntry::Comment(_)) | ("account", syntax::LedgerEntry::Account(_)) | ("commodity", syntax::LedgerEntry::Commodity(_)) | ("apply", syntax::LedgerEntry::ApplyTag(_)) | ("end", syntax::LedgerEntry::EndApplyTag) | ("include", syntax::LedgerEntry::Include(_))
+                );
+                if !ok {
+                    return Some(("reparse/entry-kind-changed".into(), format!("a {} entry reads back as a different kind of entry", kind)));
+                }
+            }
+            _ => return Some(("reparse/entry-kind-changed".into(), "a transaction reads back as a different kind of entry".into())),
+        }
+    }
+    None
+}
+
+/// Judge the whole formatted text.
+fn judge(entries: &[Entry], out: &str) -> Outcome {
+    // blocks = maximal runs of non-empty lines; blanks[i] = number of empty lines before block i
+    let mut blocks: Vec<Vec<&str>> = vec![];
+    let mut blanks: Vec<usize> = vec![];
+    let mut cur: Vec<&str> = vec![];
+    let mut nblank = 0usize;
+    let mut lines: Vec<&str> = out.split('\n').collect();
+    if lines.last() == Some(&"") {
+        lines.pop(); // the text ended with '\n'
+    }
+    for l in lines {
+        if l.is_empty() {
+            if !cur.is_empty() {
+                blocks.push(std::mem::take(&mut cur));
+            }
+            nblank += 1;
+        } else {
+            if cur.is_empty() {
+                blanks.push(nblank);
+            }
+            nblank = 0;
+            cur.push(l);
+        }
+    }
+    if !cur.is_empty() {
+        blocks.push(cur);
+    }
+    // (e) entry separation
+    for i in 0..entries.len().max(blocks.len()) {
+        let prev = if i == 0 { "start" } else { entries.get(i - 1).map(|e| e.kind()).unwrap_or("none") };
+        let this = entries.get(i).map(|e| e.kind()).unwrap_or("none");
+        match (entries.get(i), blocks.get(i)) {
+            (Some(e), Some(b)) => {
+                if !b[0].starts_with(e.first()) {
+                    return Outcome::violation(
+                        format!("entry-separation/unexpected-block/{}>{}", prev, this),
+                        format!("block {} of the output starts with {:?}, expected the {} entry starting with {:?}: entries are not separated by blank lines the way the statement says\n--- output ---\n{}", i + 1, b[0], this, e.first(), out),
+                    );
+                }
+                if i > 0 && blanks[i] != 1 {
+                    return Outcome::violation(format!("entry-separation/{}-blank-lines/{}>{}", blanks[i].min(9), prev, this), format!("{} blank lines between entry {} and entry {}\n--- output ---\n{}", blanks[i], i, i + 1, out));
+                }
+            }
+            (Some(_), None) => {
+                return Outcome::violation(format!("entry-separation/missing-block/{}>{}", prev, this), format!("the output has {} blank-line separated blocks for {} entries\n--- output ---\n{}", blocks.len(), entries.len(), out));
+            }
+            (None, Some(_)) => {
+                return Outcome::violation(format!("entry-separation/extra-block/after-{}", prev), format!("the output has {} blank-line separated blocks for {} entries\n--- output ---\n{}", blocks.len(), entries.len(), out));
+            }
+            (None, None) => unreachable!(),
+        }
+    }
+    // (a)-(d) per transaction block
+    let mut classes: Vec<String> = vec![];
+    let mut dontcare: Option<String> = None;
+    for (e, b) in entries.iter().zip(blocks.iter()) {
+        let (head_meta, posts) = match e {
+            Entry::Txn { head_meta, posts, .. } => (head_meta, posts),
+            Entry::Other { .. } => continue,
+        };
+        let mut post_lines: Vec<&str> = vec![];
+        let mut meta_seen = 0usize;
+        for l in &b[1..] {
+            let is_meta = l.trim_start().starts_with(';');
+            if is_meta {
+                meta_seen += 1;
+                let indent = l.bytes().take_while(|c| *c == b' ').count();
+                if indent != 4 || l.as_bytes().get(4) != Some(&b';') {
+                    return Outcome::violation(format!("indent/metadata/{}-spaces", indent.min(9)), format!("metadata line {:?} is not indented by exactly four spaces", l));
+                }
+            } else {
+                post_lines.push(l);
+            }
+        }
+        if post_lines.len() != posts.len() {
+            return Outcome::violation("structure/posting-line-count", format!("{} postings in the input, {} posting lines in the output\n--- output ---\n{}", posts.len(), post_lines.len(), out));
+        }
+        let meta_expected = head_meta.len() + posts.iter().map(|p| p.meta.len()).sum::<usize>();
+        if meta_seen != meta_expected {
+            dontcare = Some("metadata-line-count-differs".into());
+        }
+        for (p, l) in posts.iter().zip(post_lines.iter()) {
+            match judge_post(p, l) {
+                J::Pass(c) => classes.push(c),
+                J::DontCare(c) => dontcare = Some(c),
+                J::Viol(sig, detail) => {
+                    // consequence of a too narrow gap, as seen by the real parser
+                    let conseq = match judge_reparse(entries, out) {
+                        Some((_, d)) if sig.starts_with("account-gap/") => format!("; consequence on re-reading the formatted text: {}", d),
+                        _ => String::new(),
+                    };
+                    return Outcome::violation(sig, format!("{}{}", detail, conseq));
+                }
+            }
+        }
+    }
+    // (f)
+    if let Some((sig, detail)) = judge_reparse(entries, out) {
+        return Outcome::violation(sig, format!("{}\n--- output ---\n{}", detail, out));
+    }
+    if let Some(c) = dontcare {
+        return Outcome::dont_care(c);
+    }
+    if entries.len() == 1 && classes.len() == 1 {
+        Outcome::pass(classes.pop().unwrap())
+    } else {
+        Outcome::pass(format!("structure/{}-entries/{}-posting-lines", entries.len(), classes.len()))
+    }
+}
+
+fn run_case(entries: &[Entry], text: &str) -> Outcome {
+    let mut out: Vec<u8> = Vec::with_capacity(256);
+    let mut r = text.as_bytes();
+    match okane::format::format(&mut r, &mut out) {
+        Ok(()) => {}
+        Err(e) => return Outcome::dont_care(format!("input-not-accepted/{}", e)),
+    }
+    let out = match String::from_utf8(out) {
+        Ok(s) => s,
+        Err(_) => return Outcome::violation("output/not-utf8", "the formatted output is not UTF-8"),
+    };
+    judge(entries, &out)
+}
+
+// ------------------------------------------------------------------------------------------------
+// alphabets
+
+const ASCII_PATTERN: &str = "Assets:Bank:Checking:Main:Sub:Deep:Deeper:Deepest:Bottom:End:Xtra:More:Y";
+
+/// accounts of every display width 1..=maxw: ASCII, ASCII with one inner space, wide only, one ASCII letter + wide
+fn accounts(maxw: usize) -> Vec<String> {
+    let mut v = vec![];
+    // ASCII, display width 1..=maxw
+    for w in 1..=maxw {
+        v.push(ASCII_PATTERN[..w].to_string());
+    }
+    // ASCII with one inner single space, width 3..=maxw
+    for w in 3..=maxw {
+        let mut s = ASCII_PATTERN[..w].to_string();
+        s.replace_range(1..2, " ");
+        v.push(s);
+    }
+    // n wide characters, even widths 2..=maxw
+    for n in 1..=maxw / 2 {
+        v.push(WIDE.iter().cycle().take(n).collect());
+    }
+    // one ASCII letter + n wide characters, odd widths 3..=maxw+1
+    for n in 1..=maxw / 2 {
+        let mut s = String::from("A");
+        s.extend(WIDE.iter().cycle().skip(3).take(n));
+        v.push(s);
+    }
+    v
+}
+
+const MARKS: [&str; 3] = ["", "*", "!"];
+
+fn group3(ip: &str) -> String {
+    let mut out = String::new();
+    for (i, c) in ip.chars().enumerate() {
+        if i > 0 && (ip.len() - i) % 3 == 0 {
+            out.push(',');
+        }
+        out.push(c);
+    }
+    out
+}
+
+/// every (digit count, scale, sign, grouping) up to the bounds, plus four zero-ish literals
+fn numbers(max_digits: usize, max_scale: usize) -> Vec<String> {
+    let mut v = vec![];
+    for d in 1..=max_digits {
+        for s in 0..=max_scale.min(d - 1) {
+            for neg in [false, true] {
+                for grouped in [false, true] {
+                    let il = d - s;
+                    if grouped && il < 4 {
+                        continue;
+                    }
+                    let digits: String = "1234567890".chars().cycle().take(d).collect();
+                    let (ip, fp) = digits.split_at(il);
+                    let ip = if grouped { group3(ip) } else { ip.to_string() };
+                    v.push(format!("{}{}{}{}", if neg { "-" } else { "" }, ip, if s > 0 { "." } else { "" }, fp));
+                }
+            }
+        }
+    }
+    for x in ["0", "0.5", "-0.05", "0.00"] {
+        v.push(x.to_string());
+    }
+    v
+}
+
+const NUMBER_SHAPES: [&str; 8] = ["5", "-5", "12.50", "-1,234.56", "1234567", "12345678901234", "-12,345,678,901.2345", "0.00"];
+
+const KINDS: [(Kind, &str); 8] = [(Kind::Plain, "USD"), (Kind::Plain, "$"), (Kind::Plain, "円"), (Kind::Plain, ""), (Kind::ParenFirst, "USD"), (Kind::ParenSecond, "USD"), (Kind::ParenFirst, "円"), (Kind::ParenSecond, "$")];
+
+const LOTS: [&str; 5] = ["", " {1.5 USD}", " {{30 USD}} [2024/01/02] (lot note)", " [2024/01/02]", " (note only)"];
+const COSTS: [&str; 3] = ["", " @ 1.1 EUR", " @@ 1,100 円"];
+
+const HEAD: &str = "2024/01/05 shop";
+
+fn one_txn(p: Post) -> Vec<Entry> {
+    vec![Entry::Txn { head: HEAD, head_meta: &[], posts: vec![p] }]
+}
+
+fn structure_entries() -> Vec<Entry> {
+    let p = |mark: &'static str, acc: &str, amount: Option<(Kind, &str, &'static str)>, lot: &'static str, cost: &'static str, balance: Option<(Kind, &str, &'static str)>, meta: &'static [&'static str]| Post {
+        mark,
+        account: acc.to_string(),
+        amount: amount.map(|(kind, n, com)| Amt { kind, num: n.to_string(), com }),
+        lot,
+        cost,
+        balance: balance.map(|(kind, n, com)| Amt { kind, num: n.to_string(), com }),
+        meta,
+    };
+    vec![
+        Entry::Txn {
+            head: "2024/01/05 * (c1) Shop",
+            head_meta: &["note one", ":tag1:tag2:"],
+            posts: vec![
+                p("", "Expenses:Food", Some((Kind::Plain, "12.50", "USD")), "", "", None, &["Payee: X", "second"]),
+                p("!", "Expenses:Some Very Long Account Name:That Overflows:Col", Some((Kind::Plain, "-1,234.56", "USD")), " {1.5 USD}", " @ 1.1 EUR", Some((Kind::Plain, "0", "")), &[]),
+                p("", "Assets:Cash", None, "", "", None, &["", "Key:: 1 + 1"]),
+            ],
+        },
+        Entry::Other { kind: "comment", text: "; hello\n# world\n", first: "; hello" },
+        Entry::Other { kind: "comment", text: ";\n", first: ";" },
+        Entry::Other { kind: "account", text: "account Assets:Cash\n alias C\n note n1\n ; c1\n", first: "account Assets:Cash" },
+        Entry::Other { kind: "commodity", text: "commodity USD\n alias $\n format 1,000.00 USD\n", first: "commodity USD" },
+        Entry::Other { kind: "apply", text: "apply tag foo: bar\n", first: "apply tag foo" },
+        Entry::Other { kind: "end", text: "end apply tag\n", first: "end apply tag" },
+        Entry::Other { kind: "include", text: "include other.ledger\n", first: "include other.ledger" },
+        Entry::Txn { head: "2024/01/06", head_meta: &[], posts: vec![] },
+        Entry::Txn {
+            head: "2024/01/07 ! 店",
+            head_meta: &["メモ"],
+            posts: vec![
+                p("*", "資産:銀行", Some((Kind::ParenSecond, "1,234", "円")), "", "", Some((Kind::Plain, "0", "")), &[":あ:"]),
+                p("", "銀行 カード", None, "", "", Some((Kind::Plain, "5", "円")), &[]),
+                p("", "Ａ", Some((Kind::Plain, "7", "")), "", " @@ 1,100 円", None, &[]),
+            ],
+        },
+    ]
+}
+
+// ------------------------------------------------------------------------------------------------
+
+fn run(ctx: &mut Ctx) {
+    let thorough = ctx.tier == crate::fw::Tier::Thorough;
+    let accts = accounts(if thorough { 70 } else { 60 });
+    let nums = if thorough { numbers(20, 6) } else { numbers(14, 4) };
+    ctx.fact("accounts", accts.len() as u64);
+    ctx.fact("numbers", nums.len() as u64);
+
+    let single = |ctx: &mut Ctx, p: Post| {
+        let entries = one_txn(p);
+        let text = render(&entries, &[]);
+        ctx.case(|| text.clone(), || run_case(&entries, &text));
+    };
+
+    // family 1: every account x mark x number x amount kind, no tail
+    for acc in &accts {
+        for mark in MARKS {
+            for n in &nums {
+                for (kind, com) in KINDS {
+                    if !ctx.next_is_mine() {
+                        ctx.skip_cases(1);
+                        continue;
+                    }
+                    let mut p = Post::new(mark, acc.clone());
+                    p.amount = Some(Amt { kind, num: n.clone(), com });
+                    single(ctx, p);
+                }
+            }
+        }
+    }
+
+    // family 2: amount kinds x tails (quick: 8 number shapes; thorough: every number)
+    let shapes: Vec<String> = if thorough { nums.clone() } else { NUMBER_SHAPES.iter().map(|s| s.to_string()).collect() };
+    for acc in &accts {
+        for mark in MARKS {
+            for n in &shapes {
+                for (kind, com) in KINDS {
+                    for lot in LOTS {
+                        for cost in COSTS {
+                            for bal in [false, true] {
+                                if lot.is_empty() && cost.is_empty() && !bal {
+                                    continue; // family 1
+                                }
+                                if !ctx.next_is_mine() {
+                                    ctx.skip_cases(1);
+                                    continue;
+                                }
+                                let mut p = Post::new(mark, acc.clone());
+                                p.amount = Some(Amt { kind, num: n.clone(), com });
+                                p.lot = lot;
+                                p.cost = cost;
+                                if bal {
+                                    p.balance = Some(Amt { kind: Kind::Plain, num: "100".into(), com });
+                                }
+                                single(ctx, p);
+                            }
+                        }
+                    }
+                }
+            }
+        }
+    }
+
+    // family 3: assertion-only postings
+    for acc in &accts {
+        for mark in MARKS {
+            for n in &nums {
+                for com in ["", "$", "USD", "円"] {
+                    if !ctx.next_is_mine() {
+                        ctx.skip_cases(1);
+                        continue;
+                    }
+                    let mut p = Post::new(mark, acc.clone());
+                    p.balance = Some(Amt { kind: Kind::Plain, num: n.clone(), com });
+                    single(ctx, p);
+                }
+            }
+            // expression assertions: executed, `=` column not judged
+            for n in NUMBER_SHAPES {
+                for (kind, com) in [(Kind::ParenFirst, "USD"), (Kind::ParenSecond, "円")] {
+                    if !ctx.next_is_mine() {
+                        ctx.skip_cases(1);
+                        continue;
+                    }
+                    let mut p = Post::new(mark, acc.clone());
+                    p.balance = Some(Amt { kind, num: n.to_string(), com });
+                    single(ctx, p);
+                }
+            }
+        }
+    }
+
+    // family 4: postings without amount and assertion
+    for acc in &accts {
+        for mark in MARKS {
+            single(ctx, Post::new(mark, acc.clone()));
+        }
+    }
+
+    // family 5: ledger structure — all sequences of 1..=3 entries x input separators x line ending
+    let es = structure_entries();
+    let seps_all: [&str; 3] = ["", "\n", "\n\n\n"];
+    let ne = es.len();
+    for len in 1..=3usize {
+        let nseq = ne.pow(len as u32);
+        let nsep = seps_all.len().pow((len - 1) as u32);
+        for k in 0..nseq {
+            for sk in 0..nsep {
+                for crlf in [false, true] {
+                    let mut idx = vec![];
+                    let mut kk = k;
+                    for _ in 0..len {
+                        idx.push(kk % ne);
+                        kk /= ne;
+                    }
+                    let mut seps = vec![];
+                    let mut ss = sk;
+                    for _ in 1..len {
+                        seps.push(seps_all[ss % 3]);
+                        ss /= 3;
+                    }
+                    // two comments written without a blank line between them are ONE entry: not in the space
+                    if (1..len).any(|i| seps[i - 1].is_empty() && es[idx[i - 1]].kind() == "comment" && es[idx[i]].kind() == "comment") {
+                        continue;
+                    }
+                    if !ctx.next_is_mine() {
+                        ctx.skip_cases(1);
+                        continue;
+                    }
+                    let entries: Vec<Entry> = idx.iter().map(|i| es[*i].clone()).collect();
+                    let mut text = render(&entries, &seps);
+                    if crlf {
+                        text = text.replace('\n', "\r\n");
+                    }
+                    ctx.case(|| format!("{:?}", text), || run_case(&entries, &text));
+                }
+            }
+        }
+    }
+}
